@@ -47,8 +47,14 @@ fn rotate(r: &mut Rng, prev: &(Vec<usize>, u64)) -> ((Vec<usize>, u64), &'static
         }
         v
     };
-    match r.below(6) {
+    match r.below(8) {
         0 => (prev.clone(), "same"),
+        6 | 7 => {
+            // the same keys in the same order, only the threshold moves
+            let len = prev.0.len() as u64;
+            let t = if prev.1 < len { prev.1 + 1 } else { 1.max(prev.1 - 1) };
+            ((prev.0.clone(), t), "thr-only")
+        }
         1 => {
             let n = r.range(1, 3) as usize;
             let ks = fresh(r, &prev.0, n);
@@ -90,8 +96,10 @@ pub async fn one(ctx: &mut Ctx<'_>, r: &mut Rng, len: usize, brk: Break, brk_at:
     let mut msgs = MsgGen(0);
     // epochs
     let mut epochs = vec![Epoch { root: (vec![0], 1), ts: 8, snap: 9, tgt: 10 }];
-    if r.chance(1, 2) {
-        epochs[0].root = (vec![0, 1], r.range(1, 2));
+    match r.below(3) {
+        0 => epochs[0].root = (vec![0, 1], r.range(1, 2)),
+        1 => epochs[0].root = (vec![0, 1, 2], r.range(1, 2)),
+        _ => {}
     }
     let mut kinds = Vec::new();
     for _ in 0..len {
